@@ -7,18 +7,18 @@ CLAIMED = {
  "C05": ("TREE at exact rational scalar + f64 CLOSURE vs batch gains/losses definition; lockstep negation pairs; long-run / wide-window drivers judged at counter-boundary steps", "2.C05"),
  "C06": ("TREE at Q and f64 vs Pearson/Kendall/CoG definitions; lockstep negation/relabelling pairs; spike-prefix and long-run / wide-window drivers", "2.C06"),
  "C03": ("TREE x TREE at exact rational scalar (prefix.suffix vs fresh instance on the suffix) + f64 CLOSURE single-valuedness of last-K-inputs -> output; spike-prefix, phase-history and long-run / wide / huge-window drivers vs a fresh instance", "2.C03"),
- "C04": ("TREE at exact rational scalar with lockstep affine images and perturbed twins; constant streams; long-run / wide / huge-window drivers vs the definition", "2.C04"),
+ "C04": ("TREE at exact rational scalar with lockstep affine images and perturbed twins; constant streams; long-run / wide / huge-window drivers vs the definition; unit-weight identity on mixed units", "2.C04"),
  "C14": ("TREE with lockstep stand-alone children, bit-exact pointwise oracle; statically typed combinator trees inside other views, every Z5 sequence by replay", "2.C14"),
  "C15": ("TREE over update letters with last() at every state, cyclic/constant extensions for long windows, all two-level chains; run under two build profiles (release; debug assertions + overflow checks)", "2.C15"),
  "C16": ("exhaustive cycle drivers extended to 10^4..10^6 steps: f64/f32 run vs the exact periodic output of the same generic code at the rational scalar; every volatile prefix x flat tails vs the exact flat-window answer", "2.C16"),
- "C17": ("TREE + CLOSURE: at every node last() purity, clone-at-birth equality, clone independence, clone/original agreement per continuation letter, fresh-twin replay; state identity = derived Debug; the TREE also at the coarse 10-bit-significand scalar", "2.C17"),
+ "C17": ("TREE + CLOSURE: at every node last() purity, clone-at-birth equality, clone independence, clone/original agreement per continuation letter, fresh-twin replay; state identity = derived Debug; the TREE also at the coarse 10-bit-significand scalar; clone_from over 35 statically typed views", "2.C17"),
  "C18": ("exhaustive cycle drivers: scalar-slot count of the real structs' Debug rendering + counting global allocator at L and 4L", "2.C18"),
  "C07": ("CLOSURE over Z3 + exhaustive adversarial drivers (every volatile prefix x flat/ramp/step/linear tails) with the documented bound checked at every step (8 ulps slack); lockstep Min/Max/Sma/Alma product; long-run / wide-window drivers", "2.C07"),
  "C08": ("TREE + CLOSURE + long runs with a readiness automaton keyed on values delivered by the stand-alone inner view; never-delivering leaf; finiteness and never-reverts at every node; long runs also at the coarse 10-bit-significand scalar", "2.C08"),
  "C09": ("exhaustive driver set (every short prefix x periodic tails) extended to a horizon derived from the documented poles; finiteness, sup-stops-growing and a geometric envelope on the difference of two streams with a common tail; quiet-stretch, spike, tiny-unit and constant tail drivers; every ternary prefix x zero tail at a coarse 10-bit-significand scalar (exact ties between consecutive outputs become reachable) and x constant tails at f32", "2.C09"),
  "C10": ("TREE whose letters are pairs (x,y) at the exact rational scalar: seven real instances in lockstep, exact superposition; exhaustive letter cycles; constant streams; long-run / wide / huge-window stream pairs judged at every step", "2.C10"),
  "C12": ("TREE with lockstep instances on a*x+b / -x: exact at Q, bit-exact at f64 for power-of-two scales (2^-70..2^70; 2^+-600 for product-free views) and +-2^52 offsets; long-run / wide-window drivers", "2.C12"),
- "C13": ("TREE at Q and f64 + CLOSURE + exhaustive cycle drivers extended to 10^5/10^6 steps vs batch definitions with exact integer sums; f32 streams past 2^24 values with exactly representable partial sums", "2.C13"),
+ "C13": ("TREE at Q and f64 + CLOSURE + exhaustive cycle drivers extended to 10^5/10^6 steps vs batch definitions with exact integer sums; f32 streams past 2^24 values with exactly representable partial sums; tick-sized moves judged on the scale of the move", "2.C13"),
  "C11": ("TREE at f64/Q + exhaustive cycle drivers vs from-scratch batch evaluation of the difference equations; long-run / wide-window and quiet-stretch drivers judged at boundary steps", "2.C11"),
 }
 ALL = ["C%02d" % i for i in range(1, 19)]
